@@ -196,6 +196,46 @@ async def library_scenario(case: dict[str, Any], out: dict[str, Any]) -> None:
         if len(both) != 2 or both[-1] is not after:
             bad("channel-lost[combined-stream]", f"one stream over a short-lived context's `resource_added` and another signal received {len(both)} of 2 events "
                                                  f"(the second one dispatched on the other signal after the context was closed)")
+        # an event whose class is a *virtual* subclass (ABC.register) of the declared, abstract event class is an instance of it: it is
+        # the right class, not a wrong one
+        from abc import ABC
+
+        class PluginEvent(Event, ABC):
+            pass
+
+        class VendorEvent(Event):
+            pass
+
+        PluginEvent.register(VendorEvent)
+
+        class Host:
+            plugin_event = Signal(PluginEvent)
+
+        host = Host()
+        got_virtual: list[Any] = []
+        virtual_ready = anyio.Event()
+
+        async def listen_virtual() -> None:
+            async with host.plugin_event.stream_events() as stream:
+                virtual_ready.set()
+                async for ev in stream:
+                    got_virtual.append(ev)
+
+        tg.start_soon(listen_virtual)
+        await virtual_ready.wait()
+        vendor_event = VendorEvent()
+        try:
+            host.plugin_event.dispatch(vendor_event)
+        except Exception as e:
+            bad("channel-dispatch-raised", f"dispatching an instance of a registered virtual subclass of the declared (abstract) event class raised {describe_exc(e)}")
+        await anyio.wait_all_tasks_blocked()
+        if got_virtual != [vendor_event] and not V:
+            bad("channel-lost", "an event of a registered virtual subclass of the declared event class was not delivered")
+        try:
+            host.plugin_event.dispatch(Event())
+            bad("channel-event-class", "an event that is no instance of the declared (abstract) event class was accepted")
+        except TypeError:
+            pass
         out["counters"]["library_channels_checked"] = len(bound)
         out["counters"]["library_scenarios_with_a_component_context"] = int(any(l == "component-context" for l, _, _ in bound))
         await anyio.sleep(1)
